@@ -29,6 +29,7 @@ partial def xdeclOfJson (j : Json) : Except String XDecl := do
     pure (.enumName (← (← j.getObjVal? "cls").getStr?) ms (← optBool j "mixin" false))
   | "fmtStr" => pure (.fmtStr (← (← j.getObjVal? "kind").getStr?) (← optBool j "strict" true))
   | "opt" => pure (.opt (← xdeclOfJson (← j.getObjVal? "x")))
+  | "anyOf" => pure (.anyOf (← (← (← j.getObjVal? "xs").getArr?).toList.mapM xdeclOfJson))
   | "seqOf" => pure (.seqOf (← seqKind j) (← xdeclOfJson (← j.getObjVal? "x")))
   | "setOf" => pure (.setOf (← xdeclOfJson (← j.getObjVal? "x")))
   | "mapStr" => pure (.mapStr (← xdeclOfJson (← j.getObjVal? "x")))
@@ -41,7 +42,7 @@ partial def xdeclOfJson (j : Json) : Except String XDecl := do
       ignoreNone := ← optBool j "ignoreNone" false
       accepts := ← strList j "accepts" }
     let fields ← (← kvList j "fields").mapM fun (k, d) => do pure (k, ← xdeclOfJson d)
-    pure (.struct c fields)
+    if ← optBool j "undef" false then pure (.structU c fields) else pure (.struct c fields)
   | k => throw s!"xdecl kind {k}"
 
 def xoraclesOfJson (j : Json) : Except String XOracles := do
@@ -91,6 +92,10 @@ def run (j : Json) : Except String Json := do
   let XO ← xoraclesOfJson j
   let cls ← xdeclOfJson (← j.getObjVal? "cls")
   let opts ← match optField j "opts" with | none => pure {} | some x => Serde.optsOfJson x
+  -- compact single-field wrappers: `compactSer` = serialize(compact=True) applies to this class,
+  -- `compactDeser` = TypedPyDefaults.compact_deserialization_default is on
+  let cser ← optBool j "compactSer" false
+  let cdes ← optBool j "compactDeser" false
   let mut out : List (String × Json) := []
   if let some kwj := optField j "kw" then
     let kw ← kwOfJson kwj
@@ -98,12 +103,13 @@ def run (j : Json) : Except String Json := do
     out := out ++ [("inst", resToJson inst)]
     match inst with
     | .ok x =>
-      let s := serializeX XO cls x
+      let s := if cser then serializeCompactX XO cls x else serializeX XO cls x
       out := out ++ [("inFrag", Json.bool (xFrag XO cls x))]
       out := out ++ [("ser", resToJson s)]
       match s with
       | .ok d =>
-        out := out ++ [("isJson", Json.bool (isJson d)), ("back", resToJson (deserializeX XO opts cls d))]
+        out := out ++ [("isJson", Json.bool (isJson d)),
+                       ("back", resToJson (if cdes then deserializeCompactX XO opts cls d else deserializeX XO opts cls d))]
       | .error _ => pure ()
     | .error _ => pure ()
   if let some dj := optField j "doc" then
